@@ -333,3 +333,15 @@ def _(m, callee, args):
 def _(m, callee, args):
     tup = args[1]
     return m.call_closure(args[0], list(tup) if isinstance(tup, tuple) else [tup])
+
+
+def _punctuated_is_empty(m, callee, args):
+    """`fields.unnamed.is_empty()` / `.len()` on a lazily modelled syn::Punctuated: a solver variable per object"""
+    v = deref_all(m, args[0])
+    label = getattr(v, 'label', None) or 'punctuated'
+    if callee.endswith('is_empty'):
+        return z3.Bool(f'{label}.is_empty')
+    raise Unsupported('Punctuated::len of a lazily modelled list')
+
+
+_prepend(r'^(syn::punctuated::)?Punctuated::<.*>::(is_empty|len)$', _punctuated_is_empty)
